@@ -76,6 +76,15 @@ def cases(tier: str, seed: int) -> List[Dict[str, Any]]:
                     for opt in ("Adam", "AdamW"):
                         out.append({"kind": kind, "fin": fi, "fout": fo, "k": 3 if kind == "Conv1d" else None, "depth": d, "form": form,
                                     "eta": 0.3, "opt": opt, "constraint": "default", "seed": seed})
+    # optimizer built WITHOUT an explicit weight_decay (library default), and from a dict group that mixes the layer's
+    # tagged parameters with a plain nn.Parameter (allow_non_unit_scaling_params=True)
+    for kind in ("Linear", "LinearReadout", "Conv1d"):
+        for fi, fo in itertools.product([1, 2, 3, 5, 16, 31], [1, 3, 8]):
+            for (d, form) in conts:
+                for opt in ("Adam", "AdamW"):
+                    for variant in ("default_wd", "mixed_group"):
+                        out.append({"kind": kind, "fin": fi, "fout": fo, "k": 3 if kind == "Conv1d" else None, "depth": d, "form": form, "eta": 0.3,
+                                    "opt": opt, "constraint": "default", "seed": seed, "variant": variant})
     # a single example passed unbatched, (C, L) instead of (N, C, L)
     for cin, k, co in itertools.product([1, 2, 3, 8, 16], [1, 2, 3, 5, 9], [1, 3, 8]):
         for (d, form) in conts:
@@ -105,6 +114,8 @@ def run_case(case: Dict[str, Any]) -> Dict[str, Any]:
         ident += f"|lr={case['lr_kind']}"
     if case.get("unbatched"):
         ident += "|unbatched"
+    if case.get("variant"):
+        ident += f"|{case['variant']}"
     viol: List[Dict[str, str]] = []
     nin = fi * (k or 1)
     if nin <= 3 and fo <= 3:
@@ -178,7 +189,13 @@ def run_case(case: Dict[str, Any]) -> Dict[str, Any]:
                 # staged fine-tuning: frozen when the optimizer is built, unfrozen before training
                 for p_ in plist:
                     p_.requires_grad_(False)
-            opt = Opt(plist, lr=lr_arg, eps=0.0, weight_decay=0.0)
+            if case.get("variant") == "default_wd":
+                opt = Opt(plist, lr=lr_arg, eps=0.0)
+            elif case.get("variant") == "mixed_group":
+                plain_p = torch.nn.Parameter(torch.randn(4, dtype=torch.float64))
+                opt = Opt([{"params": plist + [plain_p]}], lr=lr_arg, eps=0.0, weight_decay=0.0, allow_non_unit_scaling_params=True)
+            else:
+                opt = Opt(plist, lr=lr_arg, eps=0.0, weight_decay=0.0)
             if frozen_at_build:
                 for p_ in plist:
                     p_.requires_grad_(True)
